@@ -27,6 +27,9 @@ func c02(c *Ctx) {
 	// a transaction that was accepted and acknowledged stays readable: writer and reader draw the length limits of the
 	// tx record at the same place (analysis shared with C15.3)
 	c15LimitAgreement(c, "C02.9/record-limits-agree")
+	// the hash tree the proofs are built from holds, for every transaction id, the Alh of the transaction the log holds: compared at open
+	// down to the first leaf (analysis shared with C03.8)
+	c03HashTreeComparedAtOpen(c, "C02.10/hash-tree-leaves-compared-with-the-chain-at-open")
 	pk := []string{"embedded/store"}
 	// ---- C02.1 single writer sites -------------------------------------------------------------
 	c.ruleWhoMayCall("C02.1/txlog-writers", "txLog.Append", callTo(appAppend+"@txLog"),
